@@ -503,6 +503,10 @@ def _gen(item):
 
 
 def run(ctx):
+    # the "what a fresh process gives" references are built in pristine processes, before any worker is forked
+    from . import c07 as _c07
+
+    _c07.prefill_fresh()
     # injected faults
     items = []
     for dname, tops in (("dag1", ["T", "T2"]), ("dag2", ["P", "Q"])):
